@@ -38,6 +38,11 @@ def kill_session(sid):
         time.sleep(0.005)
 
 
+# the regeneration command can be made slow or made to fail through the environment (so that its text never changes)
+REGEN_RULE = ("rule regen\n  command = sleep $${VERIF_REGEN_SLEEP:-0}; if [ -n \"$$VERIF_REGEN_FAIL\" ]; then exit $$VERIF_REGEN_FAIL; fi; "
+              "cp build.ninja.in build.ninja\n  generator = 1\n  description = REGEN\nbuild build.ninja: regen build.ninja.in\n")
+
+
 class FakeProbe:
     """directory provider with the interface Sim expects from a probe"""
 
@@ -155,16 +160,17 @@ class RealSim(simrun.Sim):
         g = self.g
         text = graphs.real_manifest(self.manifest_graph(req), self.vtool)
         mp = self.path("build.ninja")
+        regen_now = False
         if getattr(self, 'regen', False):
             # the manifest is itself a build product: ninja regenerates it from build.ninja.in (RebuildManifest + reload)
-            text += ("rule regen\n  command = cp build.ninja.in build.ninja\n  generator = 1\n  description = REGEN\n"
-                     "build build.ninja: regen build.ninja.in\n")
+            text += REGEN_RULE
             ip = self.path("build.ninja.in")
             if not os.path.exists(ip) or open(ip).read() != text:
                 time.sleep(GAP)
                 with open(ip, "w") as f:
                     f.write(text)
                 time.sleep(GAP)
+                regen_now = os.path.exists(mp)
                 self.labels.add('manifest_regenerated_by_ninja')
             if not os.path.exists(mp):
                 with open(mp, "w") as f:
@@ -194,6 +200,17 @@ class RealSim(simrun.Sim):
         # own session: on a timeout everything ninja started can be found and killed; a build of these sizes takes well
         # under a second, so not terminating within the limit is a result (hang or livelock), not a harness problem
         limit = getattr(self, 'time_limit', 120)
+        if regen_now and faults and not getattr(self, 'no_regen_fault', False):
+            # the command that regenerates the manifest fails first (with the exit code of the first injected fault): ninja
+            # must stop with that status before it runs anything; then the invocation is repeated without that fault
+            code = int(faults[0].split(":")[1])
+            pf = subprocess.run(cmd, cwd=self.dir, env=dict(env, VERIF_REGEN_FAIL=str(code)), stdout=subprocess.PIPE, stderr=subprocess.STDOUT, timeout=limit)
+            self.labels.add('manifest_regeneration_failed')
+            ran = os.path.exists(self.trace_path) and open(self.trace_path).read().strip() != ""
+            if pf.returncode != code or ran:
+                self.add('C05', 'the command regenerating the manifest failed with exit code %d: ninja exited with %d%s' % (
+                    code, pf.returncode, ' and ran build commands' if ran else ''), dict(output=pf.stdout[-300:].decode('utf-8', 'replace')))
+            time.sleep(GAP)
         pp = subprocess.Popen(cmd, cwd=self.dir, env=env, stdout=subprocess.PIPE, stderr=subprocess.PIPE, start_new_session=True)
         try:
             so, se = pp.communicate(timeout=limit)
